@@ -617,6 +617,23 @@ func explore(ld *loaded, h HarnessCfg, tier string, workers int, known []KnownFi
 			defer ex.sol.Close()
 			ex.initing = true
 			ex.initModule(ld.modOrder)
+			if vi := sp.Func("VP_INIT"); vi != nil {
+				// harness-level warm-up (e.g. loading lookup tables) that persists across paths
+				func() {
+					defer func() {
+						if r := recover(); r != nil {
+							if pe, ok := r.(PathEnd); ok {
+								w.note("VP_INIT incomplete: " + pe.kind + " " + pe.msg)
+								return
+							}
+							panic(r)
+						}
+					}()
+					ex.stepLimit = 50_000_000
+					ex.call(vi, nil, nil)
+				}()
+				ex.trail = ex.trail[:0]
+			}
 			ex.initing = false
 			for {
 				it, ok := w.pop()
